@@ -5,24 +5,26 @@
 # (b) the baseline test suite still passes, (c) what ./vcheck PROP reports; then removes the change and
 # confirms the demo passes. Evidence of the unchanged tree is preserved.
 patch="$(readlink -f "$1")"; demo="$(readlink -f "$2")"; prop="$3"; tier="${4:-quick}"
-cd /verif || exit 2
+# VERIF_DIR / TEST_SCRATCH let a sub-agent run this from its own verif worktree with a private scratch worktree
+cd "${VERIF_DIR:-/verif}" || exit 2
+SCR="${TEST_SCRATCH:-/tmp/seedtest}"
 if [ "${SEED_IN_REPO:-0}" = 1 ]; then R=/repo; else
-  R=/tmp/seedtest/repo
-  git -C /repo worktree remove --force $R >/dev/null 2>&1; rm -rf $R; mkdir -p /tmp/seedtest
+  R=$SCR/repo
+  git -C /repo worktree remove --force $R >/dev/null 2>&1; rm -rf $R; mkdir -p $SCR
   git -C /repo worktree add -q --detach $R HEAD || exit 2
 fi
 if [ -n "$(git -C $R status --porcelain)" ]; then echo "$R not clean"; exit 2; fi
 git -C $R apply "$patch" || { echo "patch does not apply"; [ $R != /repo ] && git -C /repo worktree remove --force $R; exit 2; }
 cleanup() { git -C $R checkout -- . ; [ $R != /repo ] && git -C /repo worktree remove --force $R; }
 trap cleanup EXIT
-( cd $R && PYTHONPATH=$R /venv/bin/python "$demo" >/tmp/seed_demo.out 2>&1 ); d1=$?
+( cd $R && PYTHONPATH=$R /venv/bin/python "$demo" >$SCR/demo.out 2>&1 ); d1=$?
 echo "demo with change: exit $d1"
 if [ "${SEED_SKIP_TESTS:-0}" != 1 ]; then
   ( cd $R && /venv/bin/python -m pytest -q -p no:cacheprovider --timeout=900 2>&1 | grep -E "passed|failed" | tail -1 )
 fi
-cp -f evidence/$prop.json /tmp/seed_ev_backup_$prop.json 2>/dev/null
+cp -f evidence/$prop.json $SCR/ev_backup_$prop.json 2>/dev/null
 EMD_REPO=$R ./vcheck "$prop" --tier "$tier" 2>&1 | grep -E "VIOLATION|KNOWN-FINDING|$prop $tier|error" | head -8
 echo "vcheck exit ${PIPESTATUS[0]}"
-cp -f /tmp/seed_ev_backup_$prop.json evidence/$prop.json 2>/dev/null  # evidence must come from the unchanged tree
+cp -f $SCR/ev_backup_$prop.json evidence/$prop.json 2>/dev/null  # evidence must come from the unchanged tree
 git -C $R checkout -- .
 ( cd $R && PYTHONPATH=$R /venv/bin/python "$demo" >/dev/null 2>&1 ); echo "demo without change: exit $?"
